@@ -44,6 +44,11 @@ CHECKS["C20"] = dict(engine="clisim", level="fault_enumeration", design_ref="DES
    text="For each generated scenario (in-place file/dir/bundle, separate output, sync, symlink and hard-link aliases, stdin; all file types, empty, library-rejected and >32KiB files; worker schedule on the tape) a fault-free run of the real command records the FS-operation trace; then the run is repeated on a rebuilt tree and killed (SIGKILL, no deferred code runs) at every boundary after a mutating operation, and every write is torn at three prefix lengths. Every surviving disk image must satisfy: original at the path, or original in <name>.bak, or complete new output; read-only inputs and bystanders untouched. Complete enumeration of crash points per explored scenario; scenarios are sampled.",
    note="Trusts: the os facade covers every FS access of cmd/minify (an AST scan refuses the build, exit 2, if the package reaches the disk around it; --watch is outside every property), the kernel FS of the scratch tmpfs, testing/synctest. Crash model = process kill, not power loss.")
 
+CHECKS["C19"] = dict(engine="clisim", level="exploration", design_ref="DESIGN.md §3 C19",
+   technique="deterministic simulation of the real cmd/minify under os/io facades (overlay): seeded worker schedules, plan-chosen io buffer sizes, errno injection; file system, stdout and exit status compared with an executable model built from library calls",
+   text="Generated directory trees and invocation shapes from the README's grammar are run through the real command (worker pool under a seeded scheduler, two schedules per multi-task scenario, io.ReadAll/io.Copy buffer sizes chosen by the plan); afterwards every destination must hold exactly the library's bytes for its type (original bytes when the library rejects the input, verbatim copy in sync mode, minified concatenation with the documented separator for bundles), stdout likewise, exit status non-zero iff a selected file failed, no other path changed, no leftover .bak, refused invocations write nothing. One run in three additionally injects an errno into an operation the command handles; then only 'no other file modified' and 'inputs not harmed' are judged. Sampling of trees, shapes and schedules.",
+   note="Trusts: the model of destinations (written from cmd/minify/README.md; shapes it does not pin are not judged), library calls of the same tree for contents, the os/io facades covering every FS access (AST scan, exit 2 otherwise), kernel FS semantics of the scratch tmpfs.")
+
 PENDING = {}
 
 def main():
@@ -86,5 +91,5 @@ def main():
     print("wrote MANIFEST.json:", len(checks), "checks,", len(na), "not applicable")
 
 if __name__ == "__main__":
-    PENDING.update({p: "check not built yet in this round (planned, see DESIGN.md §3); not claimed until it exists" for p in ["C10","C11","C19"]})
+    PENDING.update({p: "check not built yet in this round (planned, see DESIGN.md §3); not claimed until it exists" for p in ["C10","C11"]})
     main()
